@@ -187,8 +187,9 @@ def model_to_abstract(model, csv_name="input.csv"):
             spec = model["cols"][node["col"]]
             args.append({"name": "InFileName", "value": to_value(csv_name)})
             args.append({"name": "InFieldName", "value": to_value(node["col"])})
-            if spec.get("missing") is not None:
-                args.append({"name": "MissingVal", "value": num_value(spec["missing"])})
+            missing = node["read_missing"] if node.get("own_missing") else spec.get("missing")
+            if missing is not None:
+                args.append({"name": "MissingVal", "value": num_value(missing)})
             args.append({"name": "DataType", "value": to_value("Integer" if spec["dtype"] == "int64" else "Float")})
         else:
             pn = A.INPUT_PARAM[node["cmd"]]
@@ -230,7 +231,7 @@ def lay_out(draw, prog):
     return prog
 
 
-FAULTS = ["unknown_command", "duplicate_result", "missing_required", "undeclared_param", "wrong_kind_number",
+FAULTS = ["mismatched_weights", "bad_csv_cell", "unknown_command", "duplicate_result", "missing_required", "undeclared_param", "wrong_kind_number",
           "wrong_kind_list", "dangling_ref", "fuzzy_mismatch", "non_data_producer", "missing_file", "relative_path",
           "invalid_direction", "invalid_truest", "invalid_number_to_consider", "duplicate_raw_values"]
 
@@ -331,6 +332,27 @@ def inject(model, prog, fault, pick):
             return ["PathDoesNotExist"], ("arg", i, j), True
         i, j = cands[0]  # every read has a relative path: the first one in the text is the offender
         return ["InvalidRelativePath"], ("arg", i, j), False
+    if fault in ("mismatched_weights", "bad_csv_cell"):
+        # execute-time errors of a command that is reached through a consumer: the error must carry no line or a line of
+        # the offending command itself -- never the consumer's
+        if fault == "mismatched_weights":
+            cands = [(i, j) for i, c in enumerate(cmds) for j, a in enumerate(c["args"]) if a["name"] == "Weights"]
+            t = choose(cands)
+            if not t:
+                return None
+            i, j = t
+            cmds[i]["args"][j]["value"]["items"].append({"k": "int", "text": "1"})
+            classes = ["MismatchedWeights"]
+        else:
+            cands = [(i, 0) for i, c in enumerate(cmds) if c["command"] == "EEMSRead"]
+            i, j = choose(cands)
+            classes = ["InvalidDataFile"]
+        target = cmds[i]["result"]
+        fuzzy = cmds[i]["command"] in R.FUZZY
+        consumer = {"result": "Consumer", "command": "FuzzyNot" if fuzzy else "Copy", "args": [{"name": "InFieldName", "value": to_value(target, ref=True)}]}
+        cmds.insert(pick % (len(cmds) + 1), consumer)
+        i = [k for k, c in enumerate(cmds) if c["result"] == target][0]
+        return classes, ("exec", i, j), True
     if fault in ("invalid_direction", "invalid_truest", "invalid_number_to_consider", "duplicate_raw_values"):
         pname, classes = {
             "invalid_direction": ("Direction", ["InvalidDirection"]),
@@ -378,6 +400,14 @@ def check_fault(case, rec):
     fails = []
     try:
         M.write_table(case["model"], os.path.join(tmp, "input.csv"))
+        if case["fault"] == "bad_csv_cell":
+            col = [a["value"]["v"] for a in prog["commands"][loc[1]]["args"] if a["name"] == "InFieldName"][0]
+            with open(os.path.join(tmp, "input.csv")) as f:
+                rows = [l.rstrip("\n").split(",") for l in f]
+            k = rows[0].index(col)
+            rows[1 + len(rows) // 3][k] = "not_a_number"
+            with open(os.path.join(tmp, "input.csv"), "w") as f:
+                f.write("\n".join(",".join(r) for r in rows) + "\n")
         try:
             p = Program.from_source(text, working_dir=tmp if use_wd else None)
             p.run()
@@ -442,6 +472,7 @@ def fault_cases(draw):
         "invalid_number_to_consider": ["CvtToFuzzy", "FuzzySelectedUnion", "CvtToBinary"],
         "duplicate_raw_values": ["NormalizeCat", "NormalizeCurve", "CvtToFuzzyCat", "CvtToFuzzyCurve", "Mean"],
         "fuzzy_mismatch": ["CvtToFuzzy", "FuzzyOr", "FuzzyNot", "Sum", "AMinusB", "CvtFromFuzzy", "CvtToBinary"],
+        "mismatched_weights": ["WeightedSum", "WeightedMean", "CvtToFuzzy", "FuzzyWeightedUnion"],
     }
     model = draw(M.typed_models(max_nodes=6, with_meta=False, cmds=pools.get(fault), clean=True))
     prog = model_to_abstract(model)
